@@ -224,28 +224,47 @@ def sc_transpose(V, P, cfg, chk=None):
     A = V.reals("A", ops + (k,))
     u = V.reals("u", ndof * M.nnodes)
     x = V.reals("x", ops + (M.nel,))
-    mE = pym.ElementOperation(pym.Signal("u", u), domain=dom, element_matrix=A)
+    sU, sX = pym.Signal("u", u), pym.Signal("x", x)
+    mE = pym.ElementOperation(sU, domain=dom, element_matrix=A)
     mE.response()
     y = np.asarray(mE.sig_out[0].state)
-    mN = pym.NodalOperation(pym.Signal("x", x), domain=dom, element_matrix=A)
+    mN = pym.NodalOperation(sX, domain=dom, element_matrix=A)
     mN.response()
     f = np.asarray(mN.sig_out[0].state)
-    # references
-    yref = zeros(ops + (M.nel,), V.symbolic)
-    fref = zeros((ndof * M.nnodes,), V.symbolic)
-    for e, nodes, _ in M.elements():
-        dofs = [nd * ndof + d for nd in nodes for d in range(ndof)]
-        for idx in np.ndindex(*ops):
-            yref[idx + (e,)] = tot(A[idx + (q,)] * u[dofs[q]] for q in range(k))
-            for q in range(k):
-                fref[dofs[q]] = fref[dofs[q]] + A[idx + (q,)] * x[idx + (e,)]
+
+    def refs(u, x):
+        yref = zeros(ops + (M.nel,), V.symbolic)
+        fref = zeros((ndof * M.nnodes,), V.symbolic)
+        for e, nodes, _ in M.elements():
+            dofs = [nd * ndof + d for nd in nodes for d in range(ndof)]
+            for idx in np.ndindex(*ops):
+                yref[idx + (e,)] = tot(A[idx + (q,)] * u[dofs[q]] for q in range(k))
+                for q in range(k):
+                    fref[dofs[q]] = fref[dofs[q]] + A[idx + (q,)] * x[idx + (e,)]
+        return yref, fref
+    yref, fref = refs(u, x)
     chk.arrays_eq("gather", y, yref, "element-gather")
     chk.arrays_eq("scatter", f, fref, "nodal-scatter")
     if tuple(y.shape) == tuple(x.shape):
         lhs = dot(list(f.reshape(-1)), list(np.asarray(u).reshape(-1)))
         rhs = dot(list(np.asarray(x).reshape(-1)), list(y.reshape(-1)))
         chk.eq("transpose", lhs, rhs, "transpose")
-    return dict(y=y, f=f)
+    obs = dict(y=y, f=f)
+    if cfg.get("again"):
+        # history on one object: the same modules evaluated for other fields (no reset in between, as in a finite
+        # difference or a repeated Network.response())
+        u2 = V.reals("ub", ndof * M.nnodes)
+        x2 = V.reals("xb", ops + (M.nel,))
+        y1, f1 = np.array(y, dtype=y.dtype), np.array(f, dtype=f.dtype)      # snapshots of the first results
+        sU.state, sX.state = u2, x2
+        mE.response()
+        mN.response()
+        yb, fb = np.asarray(mE.sig_out[0].state), np.asarray(mN.sig_out[0].state)
+        yref2, fref2 = refs(u2, x2)
+        chk.arrays_eq("second-field:gather", yb, yref2, "element-gather")
+        chk.arrays_eq("second-field:scatter", fb, fref2, "nodal-scatter")
+        obs.update(yb=yb, fb=fb)
+    return obs
 
 
 def sc_repeat(V, P, cfg, chk=None):
@@ -297,6 +316,14 @@ def sc_thermal(V, P, cfg, chk=None):
         mom = tot(coords[q][a] * f[q * dim + b] - coords[q][b] * f[q * dim + a] for q in range(M.nnodes))
         chk.eq("thermal-moment[%s%s]" % ("xyz"[a], "xyz"[b]), mom, 0, "thermal-equilibrium-moment")
     obs = dict(f=f)
+    if cfg.get("again"):
+        # the same module evaluated for another input: the load is linear in the input, f(2 xT) = 2 f(xT)
+        f1 = np.array(f, dtype=f.dtype)
+        m.sig_in[0].state = _vec(V, [2 * x[e] * dT for e in range(M.nel)])
+        m.response()
+        fb = np.asarray(m.sig_out[0].state)
+        chk.arrays_eq("second-evaluation:f(2 xT)==2 f(xT)", fb, 2 * f1, "thermal-second-evaluation")
+        obs["fb"] = fb
     if dim == 3 or plane == "stress":
         mK = pym.AssembleStiffness(pym.Signal("x", x), domain=dom, e_modulus=E, poisson_ratio=nu, plane=plane)
         mK.response()
@@ -329,6 +356,8 @@ def items(tier):
             out.append(dict(kind="stress", id="stress-%s-%s" % (tag, ptag), mesh=mesh, plane=pl))
             out.append(dict(kind="energy", id="energy-%s-%s" % (tag, ptag), mesh=mesh, plane=pl))
             out.append(dict(kind="thermal", id="thermal-%s-%s" % (tag, ptag), mesh=mesh, plane=pl))
+            if M.nel <= 2:
+                out.append(dict(kind="thermal", id="thermal-%s-%s-again" % (tag, ptag), mesh=mesh, plane=pl, again=True))
             if M.dim == 2 and M.nel <= 2:
                 # out-of-plane thickness != 1: stresses do not depend on it, K and the thermal load are proportional to it
                 out.append(dict(kind="stress", id="stress-%s-%s-thick" % (tag, ptag), mesh=mesh, plane=pl, thick=True))
@@ -347,6 +376,9 @@ def items(tier):
                     continue      # quick: a covering subset on the larger meshes
                 out.append(dict(kind="transpose", id="transpose-%s-ndof%d-op%s" % (tag, ndof, "x".join(map(str, ops)) or "k"),
                                 mesh=mesh, ndof=ndof, opshape=list(ops)))
+                if M.nnodes <= 6 and (ndof + len(ops)) % 2 == 1:
+                    out.append(dict(kind="transpose", id="transpose-%s-ndof%d-op%s-again" % (tag, ndof, "x".join(map(str, ops)) or "k"),
+                                    mesh=mesh, ndof=ndof, opshape=list(ops), again=True))
         out.append(dict(kind="repeat", id="repeat-%s-ndof2" % tag, mesh=mesh, ndof=2, opshape=[]))
         out.append(dict(kind="repeat", id="repeat-%s-ndof3-op2" % tag, mesh=mesh, ndof=3, opshape=[2]))
     return out
